@@ -8,7 +8,7 @@ from checks.c12 import verbrun, eval_batched
 IFS, IPS = b"\x1f", b"\x1e"
 SEPARGS = ["--ifs", "\x1f", "--ips", "\x1e", "--ofs", "\x1f", "--ops", "\x1e"]
 NAMES = [b"a", b"b", b"c", b"x", b"y", b"id", b"k", b"L_a", b"R_a", b"j", b"j2", b"lj", b"rj", b"\xc3\xa9", b"a.b"]
-KEYVALS = [b"", b"1", b"2", b"3", b"10", b"a", b"b", b"A", b"ab", b"1", b"2", b"x,y", b" ", b"01"]
+KEYVALS = [b"", b"1", b"2", b"3", b"10", b"a", b"b", b"A", b"ab", b"1", b"2", b"x,y", b" ", b"01", b"a!"]
 VALS = [b"", b"1", b"2", b"p", b"q", b"r", b"0x10", b"1e3", b"x y", b"\xc3\xa9", b"l", b"w"]
 
 
@@ -82,10 +82,98 @@ def gen_case(rng, tier):
     presorted = False
     if sorted_mode and rng.random() < 0.75:
         presorted = True
-        keyf = lambda names: (lambda r: tuple(dict(r).get(f, b"") for f in names))
-        left.sort(key=keyf(lj)); right.sort(key=keyf(rj))
+        # "sorted by the join keys" = the records that HAVE the keys are in order; key-less ones (missing field, or empty
+        # value under --ignore-empty) stay wherever they are -- beginning, middle, end
+        def presort(recs, names, keep):
+            kvs = [keyvals(keep(r), names, ie) for r in recs]
+            keyed = sorted((kv, i) for i, kv in enumerate(kvs) if kv is not None)
+            it = iter(keyed)
+            return [recs[next(it)[1]] if kv is not None else recs[i] for i, kv in enumerate(kvs)]
+        keepf = (lambda r: r) if lk is None else (lambda r: [(k, v) for k, v in r if k in set(lk) | set(lj)])
+        left = presort(left, lj, keepf); right = presort(right, rj, lambda r: r)
     return dict(lj=lj, rj=rj, oj=oj, lp=lp, rp=rp, lk=lk, np=np_, ul=ul, ur=ur, ie=ie, sorted=sorted_mode, presorted=presorted,
                 fmt=fmt, left=left, right=right)
+
+
+def tagged(c, sorted_mode):
+    """the same case with every record carrying a unique tag (lid / rid), --ul --ur and pairs on: the output then says
+    which input record each output record came from, whatever the duplicates"""
+    d = dict(c)
+    d["left"] = [list(r) + [(b"lid", b"%d" % i)] for i, r in enumerate(c["left"])]
+    d["right"] = [list(r) + [(b"rid", b"%d" % j)] for j, r in enumerate(c["right"])]
+    d["lk"] = None if c["lk"] is None else list(c["lk"]) + [b"lid"]
+    d["np"], d["ul"], d["ur"], d["sorted"], d["tagged"] = False, True, True, sorted_mode, True
+    return d
+
+
+def exactly_once(c, out):
+    """with --ul --ur every input record appears exactly once, as paired or as unpaired -- in either mode, on ANY input
+    (sorted or not); pairs are genuine matches and have the documented layout"""
+    left = [keep_left(c, l) for l in c["left"]]
+    ln, rn = c["lp"] + b"lid", c["rp"] + b"rid"
+    seenl, seenr, pairs = {}, {}, set()
+    for rec in out:
+        d = dict(rec)
+        i = int(d[ln]) if ln in d and d[ln].isdigit() else None
+        j = int(d[rn]) if rn in d and d[rn].isdigit() else None
+        if i is None and j is None:
+            return ("join-exactly-once", "an output record comes from no input record")
+        if i is not None and j is not None:
+            if (i, j) in pairs:
+                return ("join-exactly-once", "the same (left, right) pair is emitted twice")
+            pairs.add((i, j))
+            kl, kr = keyvals(left[i], c["lj"], c["ie"]), keyvals(c["right"][j], c["rj"], c["ie"])
+            if kl is None or kl != kr:
+                return ("join-exactly-once", "a pair is emitted whose join values differ")
+            if rec != compose(c, left[i], c["right"][j]):
+                return ("join-layout", "paired record is not join fields, then left, then right non-join fields")
+        elif i is not None:
+            if rec != unpaired(c, left[i], c["lj"], c["lp"]):
+                return ("join-layout", "left-unpaired record is not the input record renamed")
+        else:
+            if rec != unpaired(c, c["right"][j], c["rj"], c["rp"]):
+                return ("join-layout", "right-unpaired record is not the input record renamed")
+        for side, idx, other in ((seenl, i, j), (seenr, j, i)):
+            if idx is not None:
+                side.setdefault(idx, []).append(other)
+    for side, n, name in ((seenl, len(left), "left"), (seenr, len(c["right"]), "right")):
+        for idx in range(n):
+            occ = side.get(idx, [])
+            if not occ:
+                return ("join-exactly-once", "a %s record appears nowhere in the output (--ul --ur)" % name)
+            if None in occ and len(occ) > 1:
+                return ("join-exactly-once", "a %s record is emitted as unpaired and also paired / twice as unpaired" % name)
+    return None
+
+
+def fixed_cases():
+    """hand-made sorted-mode inputs run through the same pipeline (model correspondence + oracles) on every run"""
+    base = dict(lp=b"", rp=b"", lk=None, np=False, ul=True, ur=True, ie=False, sorted=True, presorted=True, fmt="dkvp")
+    two = dict(base, lj=[b"j", b"j2"], rj=[b"j", b"j2"], oj=[b"j", b"j2"])
+    one = dict(base, lj=[b"id"], rj=[b"id"], oj=[b"id"])
+    out = []
+    # field-by-field order differs from the order of the comma-joined text ('!' < ','): -s documents the former
+    out.append(dict(two, left=[[(b"j", b"a"), (b"j2", b"x"), (b"l", b"1")], [(b"j", b"a!"), (b"j2", b"x"), (b"l", b"2")]],
+                    right=[[(b"j", b"a"), (b"j2", b"x"), (b"r", b"3")], [(b"j", b"a!"), (b"j2", b"x"), (b"r", b"4")]]))
+    # key-less left records at the beginning, inside a run of equal keys, between runs, at the end
+    nk = lambda t: [(b"l", t)]
+    L = [nk(b"k0"), [(b"id", b"1"), (b"l", b"a")], nk(b"k1"), [(b"id", b"1"), (b"l", b"b")], nk(b"k2"), [(b"id", b"2"), (b"l", b"c")],
+         nk(b"k3"), [(b"id", b"4"), (b"l", b"d")], nk(b"k4")]
+    R = [[(b"r", b"nokey")], [(b"id", b"0"), (b"r", b"p")], [(b"id", b"1"), (b"r", b"q")], [(b"id", b"1"), (b"r", b"s")], [(b"id", b"3"), (b"r", b"t")],
+         [(b"id", b"4"), (b"r", b"u")], [(b"id", b"5"), (b"r", b"v")]]
+    for ul in (True, False):
+        for np_ in (False, True):
+            out.append(dict(one, left=L, right=R, ul=ul, np=np_))
+    # empty keys: key-less under --ignore-empty (never paired), ordinary smallest key without it
+    Le = [[(b"id", b""), (b"l", b"e0")], [(b"id", b"1"), (b"l", b"a")], [(b"id", b""), (b"l", b"e1")], [(b"id", b"2"), (b"l", b"b")]]
+    Re = [[(b"id", b""), (b"r", b"e")], [(b"id", b"1"), (b"r", b"q")], [(b"id", b"2"), (b"r", b"s")]]
+    out.append(dict(one, left=Le, right=Re, ie=True))
+    out.append(dict(one, left=sorted(Le, key=lambda r: dict(r)[b"id"]), right=Re, ie=False))
+    # -s on unsorted input: key 1 comes back after key 2 (tagged: exactly-once accounting)
+    U = dict(one, presorted=False, left=[[(b"id", b"1"), (b"l", b"a")], [(b"id", b"2"), (b"l", b"b")], [(b"id", b"1"), (b"l", b"c")], [(b"l", b"d")]],
+             right=[[(b"id", b"1"), (b"r", b"p")], [(b"id", b"2"), (b"r", b"q")], [(b"id", b"1"), (b"r", b"s")], [(b"id", b"0"), (b"r", b"t")]])
+    out += [U, tagged(U, True)]
+    return out
 
 
 def csvl(fs):
@@ -128,10 +216,17 @@ def write_left(c, tmpdir, idx):
     return p
 
 
-def run_case_cli(ctx, c, tmpdir, idx, force_unsorted=False):
-    """end-to-end through the mlr command line (expensive)"""
+def run_case_cli(ctx, c, tmpdir, idx, force_unsorted=False, prepipe=None):
+    """end-to-end through the mlr command line (expensive); prepipe: the left file is gzipped and read through
+    join's own --prepipe / --prepipex / --gzin option"""
     p = write_left(c, tmpdir, idx)
-    st, out, err = mlr_run(ctx, SEPARGS + mlr_args(c, p, force_unsorted), enc(c["right"]), timeout=60)
+    args = mlr_args(c, p, force_unsorted)
+    if prepipe:
+        import gzip
+        with open(p, "rb") as f, open(p + ".gz", "wb") as g:
+            g.write(gzip.compress(f.read()))
+        args = args[:-2] + prepipe + ["-f", p + ".gz"]
+    st, out, err = mlr_run(ctx, SEPARGS + args, enc(c["right"]), timeout=60)
     return st, (dec(out) if st == 0 else None), err
 
 
@@ -220,6 +315,10 @@ def canon(recs):
 
 
 def oracle(c, out):
+    if c.get("tagged"):
+        o = exactly_once(c, out)
+        if o:
+            return o
     ordered, lun = spec(c)
     if c["sorted"]:
         if not c["presorted"]:
@@ -269,8 +368,13 @@ def run(ctx):
     forbidden_gate(ctx, ["Base", "C13"])
     ok, why = check_props(ctx, "C13/Props.v", ["C13/Harness.vo", "C13/Proofs.vo", "C13/ProofsSorted.vo", "C13/ProofsMerge.vo"])
     rng = ctx.rng
-    n = 600 if ctx.tier == "quick" else 5000
+    n = 420 if ctx.tier == "quick" else 5000
     cases = [gen_case(rng, ctx.tier) for _ in range(n)]
+    # tagged twins (unique lid / rid per record, --ul --ur): exactly-once accounting in BOTH modes, -s on unsorted inputs included
+    nt = 50 if ctx.tier == "quick" else 600
+    base = [c for c in cases if c["left"] and c["right"]][:nt]
+    cases += [tagged(c, True) for c in base] + [tagged(c, False) for c in base]
+    cases += fixed_cases()
     tmpdir = tempfile.mkdtemp(prefix="verif-c13-")
     try:
         with ctx.timed("impl"):
@@ -280,7 +384,11 @@ def run(ctx):
             twins = dict(zip(twin_idx, run_cases(ctx, cases, tmpdir, twin_idx, force_unsorted=True)))
         terms, meta, oracle_bad = [], [], []
         for i, (c, (st, out, err)) in enumerate(zip(cases, res)):
-            ctx.dist("mode:" + ("sorted" if c["sorted"] else "unsorted") + ("/presorted" if c["presorted"] else ""))
+            ctx.dist("mode:" + ("sorted" if c["sorted"] else "unsorted") + ("/presorted" if c["presorted"] else "") + ("/tagged" if c.get("tagged") else ""))
+            if c["sorted"] and c["presorted"]:
+                lk_ = [keyvals(keep_left(c, l), c["lj"], c["ie"]) for l in c["left"]]
+                if None in lk_ and any(k is not None for k in lk_[:len(lk_) - 1 - lk_[::-1].index(None)]):
+                    ctx.dist("sorted-left-with-keyless-record-after-a-keyed-one")
             ctx.dist("leftfmt:" + c["fmt"])
             ctx.dist("flags:" + "".join(f for f in ("np", "ul", "ur", "ie") if c[f]))
             ctx.count(repr(sorted(c.items(), key=lambda kv: kv[0])))
@@ -332,14 +440,22 @@ def run(ctx):
             if rep >= 3:
                 break
         with ctx.timed("cli_tie"):
-            picks = [i for i, c in enumerate(cases) if c["left"] and c["right"]][:16]
-            with ThreadPoolExecutor(2) as ex:
-                cli = list(ex.map(lambda i: run_case_cli(ctx, cases[i], tmpdir, i), picks))
-            for i, (st, o, err) in zip(picks, cli):
-                ctx.count(("cli", i))
-                ctx.dist("cli-tie")
+            ok_ = [i for i, c in enumerate(cases) if c["left"] and c["right"]]
+            picks = ok_[:6]
+            for want, m in ((lambda c: c["fmt"] == "csv", 3), (lambda c: c["fmt"] == "json", 3),
+                            (lambda c: c["lj"] != c["rj"] and c["lj"] != c["oj"], 2), (lambda c: c["sorted"] and c["fmt"] != "dkvp", 2)):
+                picks += [i for i in ok_ if want(cases[i]) and i not in picks][:m]
+            # the left file gzipped and read through join's own --prepipe / --prepipex / --gzin, both modes
+            PP = [["--prepipe", "gunzip <"], ["--prepipex", "gunzip -c"], ["--gzin"]]
+            pp_picks = [i for i in ok_ if cases[i]["sorted"]][:2] + [i for i in ok_ if not cases[i]["sorted"] and cases[i]["fmt"] != "dkvp"][:2]
+            jobs = [(i, None) for i in picks] + [(i, PP[n % 3]) for n, i in enumerate(pp_picks)]
+            with ThreadPoolExecutor(3) as ex:
+                cli = list(ex.map(lambda j: run_case_cli(ctx, cases[j[0]], tmpdir, j[0], prepipe=j[1]), jobs))
+            for (i, pp), (st, o, err) in zip(jobs, cli):
+                ctx.count(("cli", i, repr(pp)))
+                ctx.dist("cli-tie" + ("/left-file-" + pp[0] if pp else "") + "/left-" + cases[i]["fmt"])
                 if (st, o) != (res[i][0], res[i][1]):
-                    ctx.violation({"broken": "command line and in-process driver disagree", "case": show(cases[i]), "args": mlr_args(cases[i], "<left file>"),
+                    ctx.violation({"broken": "command line and in-process driver disagree", "case": show(cases[i]), "args": mlr_args(cases[i], "<left file>"), "prepipe": pp,
                                    "observed_cli": repr(o) if st == 0 else err.decode("latin1")[-300:], "observed_driver": repr(res[i][1])}, found_input=False)
                     break
         defect_probes(ctx, tmpdir)
